@@ -22,7 +22,7 @@ K4 = {
     "VEC-POS": [
         r"^alloc::vec::Vec::<T, A>::(remove|insert|swap_remove|split_off|drain|truncate_front)$",
         r"^alloc::collections::vec_deque::VecDeque::<T, A>::(remove|insert|swap_remove_back|split_off)$",
-        r"^alloc::string::String::(remove|insert|insert_str|split_off|drain|replace_range)$",
+        r"^alloc::string::String::(remove|insert|insert_str|split_off|drain|replace_range|truncate)$",   # index must be a char boundary
         r"^core::slice::<impl \[T\]>::(split_at|split_at_mut|copy_from_slice|clone_from_slice|swap|chunks|chunks_exact|windows|rotate_left|rotate_right|copy_within)$",
         r"^core::str::<impl str>::(split_at|split_at_mut)$",
     ],
